@@ -100,7 +100,7 @@ def table_fixes():
 
 def table_findings():
     kf = load(os.path.join(HERE, "known_findings.json"))
-    d = os.path.join(HERE, "known_findings.d")
+    d = os.path.join(HERE, "known_findings.json")
     entries = list(kf.get("findings", []))
     fixed = list(kf.get("fixed", []))
     if os.path.isdir(d):
